@@ -197,6 +197,7 @@ pub fn run(cx: &mut Ctx) {
 		}
 	}
 
+	cx.lap("b11.roundtrip");
 	// ---- mutations --------------------------------------------------------------------------
 	// quick: deterministic subset; thorough: every built invoice of the non-wide families.
 	let n_small = fams[0].1.len(); // one-factor configs come first in `cfgs`
@@ -214,7 +215,7 @@ pub fn run(cx: &mut Ctx) {
 			if thorough {
 				fam_of[*i] <= 1 || (fam_of[*i] <= 3 && *i % 64 == 0)
 			} else {
-				*i < n_small && len_of(c) <= 560
+				*i < n_small && len_of(c) <= 420
 			}
 		})
 		.cloned()
@@ -233,10 +234,11 @@ pub fn run(cx: &mut Ctx) {
 			b11::check_char_mutations(c, &inv, &s, &mut st, &mut out);
 			st.add("b11.charsub.invoices_done", 1);
 		}
-		out.truncate(64);
+		crate::dedup_by_identity(&mut out);
 		Some((st, out))
 	});
 	merge(cx, &charsub_sel, res, "bolt11-charsub");
+	cx.lap("b11.charsub");
 
 	let res = par::map(&fixed_sel, cx.threads, |_, (_, c)| {
 		if Instant::now() >= deadline {
@@ -251,10 +253,11 @@ pub fn run(cx: &mut Ctx) {
 			b11::check_symbol_mutations(c, &inv, &s, &mut st, &mut out);
 			st.add("b11.fixed.invoices_done", 1);
 		}
-		out.truncate(64);
+		crate::dedup_by_identity(&mut out);
 		Some((st, out))
 	});
 	merge(cx, &fixed_sel, res, "bolt11-fixed");
+	cx.lap("b11.fixed");
 }
 
 fn merge(cx: &mut Ctx, sel: &[(usize, Cfg)], res: Vec<Result<Option<(Stats, Vec<Viol>)>, String>>, what: &str) {
